@@ -322,6 +322,7 @@ def analyse(info, prims):
     mod = open(os.path.join(base, "model.txt")).read().splitlines()
     xs = [(i, r, mod[i] if i < len(mod) else "<missing>") for i, r in enumerate(req) if r.startswith("x ")]
     res["modules"] = sum(1 for r in req if r.startswith("xmod"))
+    res["modules_meeting_theorem_hypotheses"] = sum(1 for r, m in zip(req, mod) if r.startswith("xmod") and "wf=true" in m)
     seen = set()
     for (i, r, m) in xs:
         op = r.split(" ")[1]
